@@ -39,12 +39,16 @@ _MODULES = {
 
 
 def run_program(name, argv):
+    import numpy as np
+
     argv = expand(argv)
     buf = io.StringIO()
     try:
         mod = importlib.import_module(_MODULES[name])
         prog = mod.program.cli(["mchap", name] + list(argv))
-        with contextlib.redirect_stdout(buf):
+        # numpy's floating-point error handling as in a fresh interpreter (the worker boot code silences it for the
+        # function-level jobs): with the programs' RuntimeWarning -> error filter a 0/0 aborts the run, as on the command line
+        with contextlib.redirect_stdout(buf), np.errstate(divide="warn", over="warn", under="ignore", invalid="warn"):
             prog.run_stdout()
     except SystemExit as e:
         return {"error": "SystemExit: %s" % e.code, "tb": "", "partial": buf.getvalue()}
